@@ -4,16 +4,16 @@ import json
 
 SIM = "deterministic simulation with fault injection"
 CHECKS = {
- "C01": ("Seeded deterministic simulation of real client<->server sessions over an in-memory network with loss/duplication/reordering/corruption; every stream's bytes compared with a keyed pattern to end-of-stream. Sampling, not proof.",
+ "C01": ("Seeded deterministic simulation of real client<->server sessions over an in-memory network with loss/duplication/reordering/corruption; every stream's bytes compared with a keyed pattern to end-of-stream (read / read_exact / tokio traits / BiStream, write / write_all / vectored writes); plus a scripted raw peer that cuts the stream preamble into pieces, with silences and non-zero session ids. Sampling, not proof.",
          "quinn/rustls/tokio run for real but are trusted; current-thread runtime only; fault-killed runs are inconclusive",
          SIM + " (seeded schedules + network faults, byte-exact stream oracle)"),
- "C03": ("Seeded deterministic simulation of real client<->server datagram traffic under loss/duplication/reordering, sweep of the peer's datagram limit grid, size-contract probes with no await between query and send, and a raw peer that forces 2- and 4-byte quarter stream ids; sub-multiset oracle. Sampling, not proof.",
+ "C03": ("Seeded deterministic simulation of real client<->server datagram traffic under loss/duplication/reordering, sweep of the peer's datagram limit grid, size-contract probes with no await between query and send, the same probes repeated after path-MTU discovery has moved the limit, a raw peer that forces 2- and 4-byte quarter stream ids, and a raw peer that mixes datagrams of other sessions in while the application is waiting or busy; sub-multiset oracle. Sampling, not proof.",
          "datagram oracle is inclusion under loss; 8-byte quarter ids unreachable in situ; quinn/rustls/tokio trusted",
          SIM + " (network faults + peer transport limits as configuration faults, multiset oracle)"),
  "C05": ("Seeded deterministic simulation with a scripted raw peer that controls segmentation: exhaustive sweep of every single cut position of SETTINGS / CONNECT HEADERS / close capsule x every interleaved event x both roles, plus sampled multi-cut runs with short-read caps; metamorphic oracle (outcome must equal the unsegmented exchange).",
          "current-thread runtime only; raw peer + reference codec are harness code; hook counters are coverage only",
          SIM + " (peer-controlled segmentation x interleaved events, metamorphic oracle)"),
- "C07": ("Seeded deterministic simulation with a scripted raw QUIC peer that stalls streams at every preamble position; bounded-liveness oracle for healthy streams, datagrams and session close. Sampling, not proof.",
+ "C07": ("Seeded deterministic simulation with a scripted raw QUIC peer that stalls streams at every preamble position (and leaves surplus CONNECT requests, unread datagrams or a full default-size window of unread data behind); bounded-liveness oracle for healthy streams, datagrams and session close. Sampling, not proof.",
          "raw peer + reference codec are harness code; liveness judged on a fault-free simulated network; current-thread runtime only",
          SIM + " (peer stalls as faults, bounded-liveness oracle)"),
 }
